@@ -1,4 +1,4 @@
-From Goml Require Import Common.Base C11.Model C11.Properties.
+From Goml Require Import Common.Base C11.Model C11.Proofs C11.Properties.
 Open Scope nat_scope.
 Check (binding_powers_as_documented :
   (forall o, snd (bp o) = S (fst (bp o))) /\
@@ -6,4 +6,7 @@ Check (binding_powers_as_documented :
   fst (bp BNe) < fst (bp BLt) /\ fst (bp BLt) = fst (bp BGt) /\ fst (bp BGt) = fst (bp BLe) /\ fst (bp BLe) = fst (bp BGe) /\
   fst (bp BGe) < fst (bp BAdd) /\ fst (bp BAdd) = fst (bp BSub) /\ fst (bp BSub) < fst (bp BMul) /\ fst (bp BMul) = fst (bp BDiv) /\
   (forall o, snd (bp o) < call_bp /\ snd (bp o) < prefix_bp /\ snd (bp o) < fst dot_bp)).
+Check (print_then_parse_is_identity :
+  forall e, ok e = true -> exists f0, forall f, f0 <= f -> parse_fuel f (print e) = Some e).
 Print Assumptions binding_powers_as_documented.
+Print Assumptions print_then_parse_is_identity.
